@@ -134,6 +134,12 @@ def families(eng, tier, seed):
     for n, r in C.items():
         for si, sv in enumerate([STD, c01.settings_variants(tier)[1]]):
             fams.append(expect_family("faultfree-%s-s%d" % (n, si), (lambda r: lambda eng: symbolize_leaves(eng, r))(r), sv, lambda reg: ({"Ok", "Err:DuplicateTypePath"}, None), dedup_too=False))
+    SUBS = {"assoc_skip": ["subst replay::corpus::assoc::Hdr<T> => ::ext::H<T>"], "generics": ["subst replay::corpus::generics::G<A> => ::ext::B<A, A>", "subst replay::corpus::generics::G2<A, B, C> => ::ext::R<C, B, A>"],
+            "assoc_noskip": ["subst replay::corpus::assoc::HdrNoSkip<T, U> => ::ext::H<U, T>"], "phantom": ["subst replay::corpus::generics::NamedPh<A, B> => ::ext::N<B>", "subst replay::corpus::generics::Ph<A, B> => ::ext::P<B>"],
+            "collections": ["subst BTreeMap<K, V, W> => ::ext::M<W, V, K>"], "containers": ["subst Option<T, U> => ::ext::O<U>"]}
+    for n, ds in SUBS.items():
+        for k, dsub in enumerate(ds):
+            fams.append(expect_family("faultfree-subst-%s-%d" % (n, k), (lambda r: lambda eng: regdsl._clone(r))(C[n]), STD + Settings([dsub]), lambda reg: ({"Ok", "Err:DuplicateTypePath"}, None)))
     # (a) id mismatch at every entry: id is ANY value different from the index
     for n in small:
         r = bases[n]
